@@ -8,3 +8,9 @@ pub mod v2;
 
 #[cfg(feature = "v1")]
 pub use v1::*;
+
+/// Verification hooks (add-only, `--cfg libp2p_verif`).
+#[cfg(all(libp2p_verif, feature = "v1"))]
+pub mod verif {
+    pub use crate::v1::behaviour::verif_filter_valid_addrs as filter_valid_addrs;
+}
